@@ -38,7 +38,7 @@ class DocstringSchemaExtractor(BaseSchemaExtractor):
 
                 parameters_schema[param.arg_name] = {
                     'title': param.arg_name.capitalize(),
-                    'description': param.description if param.description is not None else UNSET,
+                    **({'description': param.description} if param.description is not None else {}),
                     'type': param.type_name,
                 }
 
@@ -70,7 +70,7 @@ class DocstringSchemaExtractor(BaseSchemaExtractor):
                 result_schema = {
                     'type': doc.returns.type_name,
                     'title': 'Result',
-                    'description': doc.returns.description if doc.returns.description is not None else UNSET,
+                    **({'description': doc.returns.description} if doc.returns.description is not None else {}),
                 }
 
         return result_schema, {}
